@@ -33,6 +33,7 @@ Lean driver as a `cycle` op at the same position of the op sequence.
 from __future__ import annotations
 
 import asyncio
+import os
 import random
 from typing import Any, Optional
 
@@ -214,9 +215,10 @@ def _run_impl(case: dict) -> dict:
         await simloop.settle()
         marks.append((mark, len(rig.log), _snap(rig)))
         final_pending = rig.pending()
+        end = loop.time()
         await rig.stop()
         return {'log': [list(e) for e in rig.log], 'marks': marks, 'granularity': rig.granularity,
-                'final_pending': final_pending}
+                'final_pending': final_pending, 'times': list(rig.log.times), 'end': end}
 
     res, loop = simloop.run(main)
     res['loop_exceptions'] = [e for e in loop.exceptions if e.get('type') not in (None, 'CancelledError')]
@@ -294,6 +296,22 @@ def _script(case: dict, impl: dict) -> tuple[list[str], list[str]]:
     return lines, obs
 
 
+def _run_driver_chunks(driver_file: str, lines: list[str], resets: list[int], parts: int = 8) -> list[str]:
+    """`common.run_driver` over `lines`, cut at `reset` lines (indices `resets`) into up to `parts` pieces that run side by
+    side (each piece is a whole number of cases: the driver's state starts afresh at every `reset`)."""
+    if len(lines) < 4000 or len(resets) < parts * 2 or os.environ.get('VERIF_SERIAL'):
+        return common.run_driver(driver_file, lines)
+    from concurrent.futures import ThreadPoolExecutor
+    cuts = sorted({resets[(len(resets) * i) // parts] for i in range(parts)} | {0})
+    pieces = [lines[a:b] for a, b in zip(cuts, cuts[1:] + [len(lines)])]
+    with ThreadPoolExecutor(len(pieces)) as ex:
+        outs = list(ex.map(lambda ls: common.run_driver(driver_file, ls), pieces))
+    for ls, o in zip(pieces, outs):
+        if len(o) != len(ls):
+            raise common.LeanError(f'driver answered {len(o)} lines for {len(ls)}')
+    return [x for o in outs for x in o]
+
+
 def _model_obs(lines: list[str], out: list[str], obs: list[str]) -> list[str]:
     res = []
     for ln, o, want in zip(lines, out, obs):
@@ -316,6 +334,7 @@ def _model_obs(lines: list[str], out: list[str], obs: list[str]) -> list[str]:
 # --------------------------------------------------------------------------------------------
 
 FINAL = ('COMPLETE', 'ABORTED', 'FAILED')
+OVERDUE = 0.3          # > MAX_TRANSFER_MGMT_INTERVAL: a requested cycle that has not run for this long is not coming
 
 
 def _klass(info: list) -> tuple:
@@ -458,12 +477,17 @@ def _monitor(case: dict, impl: dict) -> list[Violation]:
                 add('C05-slot-left-idle', f'after a cycle {free - len(sel) - len(inflight)} slot(s) stay free while '
                     f'eligible user(s) {waiting} have queued uploads' + ''.join(lost(w) for w in waiting), where,
                     'work-conserving')
-    # every change is followed by a scheduling cycle (the queue request is served)
-    if impl.get('final_pending'):
-        add('C05-cycle-not-run', 'a management cycle request is still pending after 1 s of quiescence', None, 'served')
-    if last_change_idx > last_cycle_idx:
+    # every change is followed by a scheduling cycle (the queue request is served): the job sleeps at most
+    # MAX_TRANSFER_MGMT_INTERVAL (0.25 s) between two cycles, the case ends with 1 s in which the schedule does nothing
+    times, end = impl['times'], impl['end']
+    t_cycle = times[last_cycle_idx] if last_cycle_idx >= 0 else None
+    if impl.get('final_pending') and (t_cycle is None or end - t_cycle > OVERDUE):
+        add('C05-cycle-not-run', f'a management cycle request is pending at the end, the last cycle ran '
+            f'{"never" if t_cycle is None else "%.2f s earlier" % (end - t_cycle)}', None, f'served within {OVERDUE} s')
+    if last_change_idx > last_cycle_idx and end - times[last_change_idx] > OVERDUE:
         e = impl['log'][last_change_idx]
-        add('C05-cycle-not-run', f'no management cycle ran after the last change {e[:4]} (1 s of quiescence)',
+        add('C05-cycle-not-run', f'no management cycle ran after the last change {e[:4]} '
+            f'({end - times[last_change_idx]:.2f} s before the end)',
             {'log_index': last_change_idx}, 'every change of a transfer / report about a user is followed by a cycle')
     if impl.get('loop_exceptions'):
         add('C05-internal-error', 'exception reported to the loop exception handler', impl['loop_exceptions'][:2])
@@ -952,7 +976,7 @@ class C05(Property):
                 lines.append(f"reset {c['slots']}")
                 spans.append((len(lines), len(ls)))
                 lines += ls
-            out = common.run_driver(self.driver_file, lines)
+            out = _run_driver_chunks(self.driver_file, lines, [a - 1 for a, k in spans if k])
             model = [out[a:a + k] for a, k in spans]
         else:
             res.model_available = False
